@@ -158,7 +158,9 @@ func (n *maxNode) Next() (bool, error) {
 						case float64:
 							res = res.SetFloat64(v)
 						default:
-							return nil
+							// a null (or non-numeric) value does not take part in the
+							// comparison; keep the extremum found so far
+							return value
 						}
 						if value == nil || res.Cmp(value) > 0 {
 							return res
